@@ -5,4 +5,5 @@ From Verif Require Import Lib.Base Lib.Utf8 Model.Csv.
 Extraction "model.ml"
   mkCfg read_csv write_record join_fields rfc_records rrec_text
   valid_csv_separator validate_csv_input
-  arun msr read_file.
+  arun msr read_file
+  emit_rows mkOut.
